@@ -78,6 +78,11 @@ def sym_sum(e, lens):
         if var:
             if len(var) == 1 and var[0][0][0] == "I" and var[0][1] == 1 and len(var[0][0]) == 4:
                 continue  # I[m, X] is the inverse transform WITHOUT its mean mode: it sums to zero
+            if len(var) == 1 and var[0][0][0] in ("Re", "Im") and var[0][1] == 1 and base.is_real_coeffs():
+                # the real / imaginary part commutes with a sum (with real weights): Sum(Re z) = Re(Sum z)
+                inner = sym_sum(var[0][0][1], lens)
+                out = out + base * (alg.real(inner) if var[0][0][0] == "Re" else alg.imag(inner))
+                continue
             if len(var) == 1 and var[0][0][0] == "PSum" and var[0][1] == 1 and len(lens) == var[0][0][4] - len(var[0][0][2]):
                 a = var[0][0]  # the remaining axes of a partial sum are summed: the whole grid sum
                 out = out + base * sym_sum(a[1], tuple(a[3]) + lens)
@@ -142,6 +147,17 @@ def sym_stat(name, e, lens):
             return e
         if name in ("Std", "Var"):
             return Poly()
+    if name in ("Max", "Min"):
+        # max / min commute with adding a grid-constant: Max(f + c) = Max(f) + c
+        const = Poly()
+        var = Poly()
+        for c_, a_, b_ in split_terms(e, varies):
+            if b_:
+                var = var + Poly({tuple(sorted(a_ + b_, key=lambda t: alg.mono_sortkey((t,)) if hasattr(alg, "mono_sortkey") else repr(t))): c_}) if False else var + Poly({a_: c_}) * Poly({b_: ONE})
+            else:
+                const = const + Poly({a_: c_})
+        if not const.is_zero() and not var.is_zero():
+            return sym_stat(name, var, lens) + const
     return Poly.atom((name, e, tuple(lens)))
 
 
